@@ -25,7 +25,7 @@ ALLOWED_AXIOMS = {"propext", "Classical.choice", "Quot.sound"}
 BANNED = re.compile(r"\b(sorry|admit|native_decide|bv_decide|implemented_by)\b|^\s*axiom\s|\bunsafe\s|maxHeartbeats\s+0\b")
 
 sys.path.insert(0, os.path.dirname(os.path.abspath(__file__)))
-from props import PROPS  # noqa: E402
+from props import PROPS, AGREE_THEOREMS  # noqa: E402
 
 
 def log(*a):
@@ -50,6 +50,16 @@ def regenerate_constants():
     if rc != 0:
         return False, err.strip()
     return True, json.loads(out)
+
+
+def regenerate_logic():
+    """Translate the decision logic of /repo/src into Gen/Logic/*.lean (tools/translate_logic.py).
+    Returns the list of (group, definition, reason) that could not be translated."""
+    rc, out, err = run([sys.executable, os.path.join(ROOT, "tools", "translate_logic.py")])
+    try:
+        return [tuple(f) for f in json.loads(out.strip().splitlines()[-1])["failures"]]
+    except Exception:
+        return [("*", "*", "translator crashed: " + (err or out)[-300:])]
 
 
 def lake_build(targets):
@@ -692,9 +702,14 @@ def main():
     tie_broken = []
     if not okc:
         tie_broken.append(f"constant extraction: {consts}")
-    modules = cfg["lean_modules"]
+    logic_failures = regenerate_logic()
+    groups = cfg.get("logic", [])
+    for g, name, why in logic_failures:
+        if g == "*" or g in groups:
+            tie_broken.append(f"translator: {name} ({g}) could not be translated from the current source: {why}")
+    modules = cfg["lean_modules"] + [f"MiniMoka.Lemmas.Agree.{g}" for g in groups]
     okb, errors, buildlog = lake_build(modules + ["mmdriver"])
-    obligations = cfg["theorems"]
+    obligations = cfg["theorems"] + [t for g in groups for t in AGREE_THEOREMS[g]]
     discharged = []
     axioms = {}
     if okb:
